@@ -96,7 +96,8 @@ func readContent(rf io.ReaderFrom, name string) (int64, error) {
 // quoteString escape special characters in a given string
 func (app *App) quoteString(raw string) string {
 	bb := bytebufferpool.Get()
-	quoted := app.getString(fasthttp.AppendQuotedArg(bb.B, app.getBytes(raw)))
+	// copy: the buffer goes back to the pool before the caller uses the result
+	quoted := string(fasthttp.AppendQuotedArg(bb.B, app.getBytes(raw)))
 	bytebufferpool.Put(bb)
 	return quoted
 }
